@@ -126,6 +126,12 @@ def lemma_block_job(ctx):
     st.pc += [nbytes.t >= 1, off.t + nbytes.t <= (1 << 63) - 1]   # file offsets are off_t
     src_len = eng.fresh_int(st, "u64", "src_len")
     st.ghost["src_len"] = src_len
+    # the length recorded when the file was opened (handle.metadata.len()): what was announced and what the destination was sized to.
+    # The end of the readable content (src_len, where the kernel starts answering 0) need not agree with it: pseudo files
+    # (sysfs: st_size 4096, a few readable bytes) end earlier, extents reported by FIEMAP can lie beyond it.
+    rec_len = eng.fresh_int(st, "u64", "recorded_len")
+    handle.attrs[("f", None, ctx.field("CopyHandle", "metadata"))].attrs["len"] = rec_len
+    below_rec = z3.If(rec_len.t > off.t, z3.If(rec_len.t - off.t < nbytes.t, rec_len.t - off.t, nbytes.t), 0)
     in_file = z3.If(src_len.t > off.t, z3.If(src_len.t - off.t < nbytes.t, src_len.t - off.t, nbytes.t), 0)
     n_bound = 0
     # captures in the order the closure declares them (debug info); unknown extra captures become fresh symbolic values
@@ -199,6 +205,9 @@ def lemma_block_job(ctx):
         if not errors_sent:
             okk = ctx.lemma(eng, "C01/C05: a block job that reports no error has copied its whole block up to EOF (short counts are retried)",
                             p.pc, done == in_file, key="parblock:short-copy-not-retried", info={"trace": names_t})
+            ctx.lemma(eng, "C01/C04/C06: a block job that reports no error has transferred every byte of its block below the length recorded at open "
+                           "(an end of file before metadata.len() is an error, as in the parfile driver, not a short block)",
+                      p.pc, done >= below_rec, key="parblock:eof-before-recorded-length", info={"trace": names_t})
         total = z3.IntVal(0)
         for e in copied_sent:
             total = total + e.args[0].fields[0].t
@@ -323,6 +332,12 @@ def lemma_queue_file_blocks(ctx):
     n_bound = 0
     for p in paths:
         names = trace_names(p)
+        # C07 (progress of the SEEK_DATA/SEEK_HOLE fallback): a further segment is asked for only while the position is below the file
+        # length -- at pos == len the search answers (len, len), nothing advances and the dispatcher would spin for ever.  Checked on
+        # every path, including those cut by the unrolling bound.
+        for e in [x for x in p.trace if x.name == "next_sparse_segments"]:
+            ctx.lemma(eng, "C07: the segment walk asks for a further data segment only while the position is below the file length (no iteration at pos == len, which cannot advance)",
+                      p.pc, e.args[2].t < length.t, info={"trace": names})
         if p.status == "bound" and any(e.name == "next_sparse_segments" for e in p.trace):
             n_bound += 1      # more data segments than the unrolling bound in the SEEK_DATA/SEEK_HOLE fallback: outside the claim
             # ... except for progress: every segment queued so far must be the one the search returned
